@@ -13,7 +13,7 @@ PROP = {'lean_props': ['Comrak.Props.C11'],
                        'spx_consume_in_range',
                        'blockEnd_after_start',
                        'blockEnd_counterexample',
-                       'thematicEnd_exact_iff'],
+                       'thematicEnd_exact', 'thematicEnd_old_exact_iff'],
  'strength': 'partial: theorems cover the oracles (line table partitions the source, nesting is a pre-order, per-level order check suffices) '
              'and the modelled mechanisms (Spx::consume exactly; the three-way end rule of finalize_borrowed under its explicit hypothesis, '
              'refuted without it; thematic-break end column exact iff no container prefix was consumed). The whole parser is reached by the '
